@@ -44,6 +44,11 @@ Fields(forest) ==
 \* ---- the forest universe ----------------------------------------------------------
 PrimTags == {<<"U", 2>>, <<"U", 4>>, <<"C", 0>>, <<"C", 30>>, <<"C", 31>>, <<"A", 127>>, <<"A", 128>>, <<"P", 16383>>, <<"P", 16384>>}
 ConsTags == {<<"U", 16>>, <<"U", 17>>, <<"C", 1>>, <<"A", 31>>, <<"P", 300>>}
+\* "any tag class/number": every class x the tag numbers at which the identifier grows by an octet, up to the largest
+\* number the tools' tag type holds (2^30 - 1: ber_tlv_tag_t keeps the class in the two low bits of 32)
+EdgeNums == {0, 30, 31, 127, 128, 16383, 16384, 2097151, 2097152, 268435455, 268435456, 536870911, 536870912, 1073741823}
+EdgeTagged == {PNode(c, n, "min", <<5>>) : c \in {"U", "A", "C", "P"}, n \in EdgeNums \ {0}}
+              \cup {CNode(c, n, lf, <<PNode(c, n, "min", <<>>)>>) : c \in {"A", "C", "P"}, n \in EdgeNums, lf \in {"min", "indef"}}
 Payloads == {<<>>, <<5>>, <<255, 0>>, Zeros(127), Zeros(128)} \cup (IF Rich THEN {Zeros(256), <<0, 0>>, <<128>>} ELSE {})
 Prims == {PNode(t[1], t[2], lf, c) : t \in PrimTags, lf \in {"min"}, c \in Payloads}
          \cup {PNode("U", 4, "pad1", c) : c \in {<<>>, <<5>>, Zeros(128)}}
@@ -75,7 +80,7 @@ D3 == {CNode("U", 16, lf, <<x>>) : lf \in {"min", "indef"}, x \in {CNode("C", 1,
 \* long primitives followed by siblings: the printed line length sweeps over every residue of the tools' I/O chunk size
 LongSweep == IF Rich THEN {<<CNode("U", 16, "min", <<PNode("U", 4, "min", Zeros(n)), PNode("U", 2, "min", <<5>>), PNode("U", 5, "min", <<>>)>>)>> : n \in 1300..2800}
              ELSE {<<CNode("U", 16, "min", <<PNode("U", 4, "min", Zeros(n)), PNode("U", 2, "min", <<5>>)>>)>> : n \in {1364, 1365, 1366, 2719, 2730}}
-Forests == {<<n>> : n \in Prims \cup D1 \cup D2 \cup D3 \cup TypedPrims}
+Forests == {<<n>> : n \in Prims \cup D1 \cup D2 \cup D3 \cup TypedPrims \cup EdgeTagged}
            \cup {<<CNode("U", 16, lf, <<a, PNode("U", 5, "min", <<>>)>>)>> : a \in TypedPrims, lf \in {"min", "indef"}}
            \cup {<<a, b>> : a \in SomeD1 \cup SomePrims, b \in SomeD1 \cup SomePrims}
            \cup LongSweep
@@ -85,18 +90,39 @@ MutPositions(b) == IF Len(b) <= 12 THEN DOMAIN b ELSE (1..8) \cup ((Len(b) - 3).
 Mutants(b) == {SubSeq(b, 1, k) : k \in 0..(IF Len(b) <= 24 THEN Len(b) - 1 ELSE 12)}
               \cup UNION {{[b EXCEPT ![i] = x] : x \in {0, 1, 31, 127, 128, 129, 255, Byte(b[i] + 1)} \ {b[i]}} : i \in MutPositions(b)}
 
+\* ---- over-long tag / length fields (closed forms) ------------------------------------
+\* a TL can be made arbitrarily long without being malformed octet-wise: a high tag number with k leading 0x80 groups,
+\* a long-form length with k leading zero octets.  The tools bound the TL they accept; wherever the element sits
+\* (top level, inside a definite-length or an indefinite-length parent, with much or little of the parent left)
+\* the answer must be a diagnostic or success, never a memory error.
+PadTag(k) == <<95>> \o [i \in 1..k |-> 128] \o <<5, 1, 7>>                     \* [APPLICATION 5], k padding groups
+PadLen(k) == <<4, 128 + k>> \o Zeros(k - 1) \o <<1, 7>>                         \* OCTET STRING, k length octets
+PadKs == {1, 2, 3, 4, 5, 6, 7, 8, 9, 14, 15, 16, 17, 28, 29, 30, 31, 32, 33, 34, 35, 40, 60, 100, 126}
+Filler(n) == <<4>> \o DerLen(n) \o Zeros(n)
+InDef(x, tail) == <<48>> \o DerLen(Len(x) + Len(tail)) \o x \o tail
+InIndef(x) == <<48, 128>> \o x \o <<0, 0>>
+PadInputs ==
+  LET xs == {PadTag(k) : k \in PadKs} \cup {PadLen(k) : k \in PadKs}
+  IN xs \cup {InDef(x, t) : x \in xs, t \in {<<>>, Filler(0), Filler(40), Filler(200)}}
+        \cup {InIndef(x) : x \in xs}
+        \cup {InDef(InIndef(x), t) : x \in xs, t \in {<<>>, Filler(60)}}
+        \cup {InIndef(InDef(x, Filler(60))) : x \in xs}
+        \cup {InDef(Filler(3) \o x, Filler(50)) : x \in xs}
+
 VARIABLES forest, mode, l
-Init == /\ forest \in Forests /\ mode \in {"roundtrip", "mutate"} /\ l = 0
+Init == /\ mode \in {"roundtrip", "mutate", "pad"} /\ l = 0
+        /\ forest \in (IF mode = "pad" THEN {<<>>} ELSE Forests)
         /\ (mode = "mutate" => forest \notin LongSweep)
 Next == FALSE /\ UNCHANGED <<forest, mode, l>>
 \* model-level: the first field record starts at 0, offsets increase, and every record lies within the octets
-FieldsSound == LET f == Fields(forest) s == Ser(forest) IN
+FieldsSound == mode = "pad" \/ LET f == Fields(forest) s == Ser(forest) IN
                /\ f[1].o = 0
                /\ \A i \in DOMAIN f : f[i].o + f[i].tl <= Len(s) /\ (i > 1 => f[i].o > f[i - 1].o)
                /\ \A i \in DOMAIN f : f[i].v >= 0 => f[i].o + f[i].tl + f[i].v <= Len(s)
 Export ==
   IF mode = "roundtrip" THEN PrintT(<<"SCN", ToJson([mode |-> mode, bytes |-> Ser(forest), fields |-> Fields(forest),
                                                      padded |-> \E i \in DOMAIN Fields(forest) : FALSE])>>)
+  ELSE IF mode = "pad" THEN \A m \in PadInputs : PrintT(<<"SCN", ToJson([mode |-> mode, bytes |-> m])>>)
   ELSE \A m \in Mutants(Ser(forest)) : PrintT(<<"SCN", ToJson([mode |-> mode, bytes |-> m])>>)
 
 \* ---- judge ------------------------------------------------------------------------
@@ -105,7 +131,7 @@ Log == ndJsonDeserialize(IOEnv.VERIF_TRACE)
 When(c, name) == IF c THEN {name} ELSE {}
 Ev == Log[l]
 TFaults(sc, ev) ==
-  IF sc.mode = "mutate"
+  IF sc.mode \in {"mutate", "pad"}
   THEN When(ev.unber_signal # 0, "unber-died") \cup When(ev.unber_signal = 0 /\ ev.unber_exit # 0 /\ ~ev.unber_diag, "failure-without-diagnostic")
        \cup When(ev.pretty_signal # 0, "unber-died-pretty-printing")
   ELSE When(ev.unber_signal # 0, "unber-died")
